@@ -156,6 +156,11 @@ func c18BuildPool(ctx *Ctx, t *tape.Tape) *c18Pool {
 				}
 			}
 		}
+		if b == nil && t.Chance(1, 5) {
+			// written by somebody else's encoder: non-canonical number forms,
+			// chunks out of order or repeated, palettes in every format
+			b, desc = world.GenForeign(t).B, "written by the foreign writer"
+		}
 		if b == nil {
 			gc := world.GenCfg{MaxItems: 6, EncOnly: true}
 			if t.Chance(1, 40) {
